@@ -126,9 +126,9 @@ def ctx(draws):
             vx.prove(f"C04/ctx/restore_normal/draws={draws}", _eq(final, rngmodel.STATE0))
         if dr:
             vx.prove(f"C04/ctx/seeded_draws_independent/draws={draws}", all(not rng.depends_on_initial_state(t) for _, t in dr))
-            vx.prove(f"C04/ctx/seeded_draws_from_seed/draws={draws}", vx.all_of([_eq(t, rng.nexts(rngmodel.SEEDED(s.t), k)) for k, (_, t) in enumerate(dr)]))
+            vx.prove(f"C04/ctx/seeded_draws_from_seed/draws={draws}", vx.all_of([_eq(t, rngmodel.RngModel.after(rngmodel.SEEDED(s.t), [n for n, _ in dr[:k]])) for k, (_, t) in enumerate(dr)]))
     else:
-        vx.prove(f"C04/ctx/none_is_noop/draws={draws}", _eq(final, rng.nexts(rngmodel.STATE0, draws)))
+        vx.prove(f"C04/ctx/none_is_noop/draws={draws}", _eq(final, rngmodel.RngModel.after(rngmodel.STATE0, [n for n, _ in dr])))
 
 
 # -- H2 -----------------------------------------------------------------------------------------------
@@ -196,9 +196,9 @@ def model(i):
         else:
             # without a seed the model only consumes the stream: never re-seeds, never rewinds
             # (an exception inside a draw may or may not have consumed the stream: any prefix length is fine)
-            vx.prove(f"C04/model/{label}/no_reseed", vx.any_of([_eq(final, rng.nexts(rngmodel.STATE0, k)) for k in range(len(dr) + 1)]), n_draws=len(dr), seeds=str(seeds),
+            vx.prove(f"C04/model/{label}/no_reseed", vx.any_of([_eq(final, rngmodel.RngModel.after(rngmodel.STATE0, [n for n, _ in dr[:k]])) for k in range(len(dr) + 1)]), n_draws=len(dr), seeds=str(seeds),
                      raised=repr(raised)[:80] if raised else None)
-            vx.prove(f"C04/model/{label}/unseeded_draws_follow_stream", vx.all_of([_eq(t, rng.nexts(rngmodel.STATE0, k)) for k, (_, t) in enumerate(dr)]) if raised is None else True)
+            vx.prove(f"C04/model/{label}/unseeded_draws_follow_stream", vx.all_of([_eq(t, rngmodel.RngModel.after(rngmodel.STATE0, [n for n, _ in dr[:k]])) for k, (_, t) in enumerate(dr)]) if raised is None else True)
 
 
 # -- H3 -----------------------------------------------------------------------------------------------
@@ -340,8 +340,10 @@ def replay(oid, kwargs, model, data):
         res = {}
         for prior in (1, 2):
             np.random.seed(1000 + prior)
-            before = np.random.get_state()
+            if prior == 2:
+                np.random.normal()  # leaves a cached Gaussian in the legacy generator
             d = _detector(kind)
+            before = np.random.get_state()
             kk = dict(kw)
             if seedarg:
                 kk[seedarg] = 1234
@@ -368,6 +370,43 @@ def replay(oid, kwargs, model, data):
                 a.append(np.random.get_state()[1].copy())
             return bool(np.array_equal(a[0], a[1])), {"same_global_state_after_run_whatever_the_prior_state": bool(np.array_equal(a[0], a[1]))}
         return False, res
+    if data["fn"] in ("ctx", "plumb") and not (data["fn"] == "plumb" and kwargs["mode"] == "calibration"):
+        from pyxel.util import set_random_seed
+
+        res = {}
+        for prior in (1, 2):
+            np.random.seed(2000 + prior)
+            if prior == 2:
+                np.random.normal()
+            before = np.random.get_state()
+            seed = int(model.get("seed", model.get("pipeline_seed", 5)) or 5) % (2**31)
+            if data["fn"] == "ctx":
+                given = bool(model.get("seed_given", True))
+                try:
+                    with set_random_seed(seed if given else None):
+                        for _ in range(kwargs["draws"]):
+                            np.random.normal(size=2)
+                        if bool(model.get("body_raises", False)):
+                            raise RuntimeError("body failed")
+                except RuntimeError:
+                    pass
+                if not given:
+                    return False, {"note": "unseeded: state legitimately advances"}
+            else:
+                import pyxel
+                from pyxel.exposure import Exposure, Readout
+
+                def hook(d, tag, kw_, rec):
+                    np.random.random()
+
+                vxprobes.reset(hook)
+                try:
+                    pyxel.run_mode(mode=Exposure(readout=Readout(times=[1.0]), pipeline_seed=seed), detector=make_ccd(2, 2), pipeline=_pipe())
+                finally:
+                    vxprobes.reset(None)
+            after = np.random.get_state()
+            res[f"state_changed_prior{prior}"] = not (before[0] == after[0] and np.array_equal(before[1], after[1]) and tuple(before[2:]) == tuple(after[2:]))
+        return bool(res.get("state_changed_prior1") or res.get("state_changed_prior2")), res
     if data["fn"] == "plumb" and kwargs["mode"] == "calibration":
         import inspect
 
